@@ -89,21 +89,26 @@ func staleKey(key []byte, ver uint64) string { return fmt.Sprintf("%x@%d", key, 
 
 // knownStale reports whether serving version ver of key is the listed finding
 // gc-old-version-resurfaces (never in Strict mode).
-func (in *Interp) knownStale(key []byte, ver uint64) bool {
+func (in *Interp) knownStale(key []byte, ver, readTs uint64) bool {
 	if in.Strict || in.StrictStale || !in.stale[staleKey(key, ver)] {
 		return false
 	}
-	// The finding's mechanism: every newer version of the key has been compacted away and the
-	// re-inserted old one is now the newest the DB stores. If the DB still holds a newer version
-	// and serves the old one anyway, that is a different defect and is reported.
+	// The finding's mechanism: every version between the re-inserted old one and the reader's
+	// timestamp has been compacted away, so the old one is the newest the DB stores at or below
+	// that timestamp. If the DB still holds a newer visible version and serves the old one anyway,
+	// that is a different defect and is reported.
 	txn, _ := in.newReader()
 	defer txn.Discard()
 	o := badger.DefaultIteratorOptions
 	o.PrefetchValues = false
 	it := txn.NewKeyIterator(key, o)
 	defer it.Close()
-	it.Rewind()
-	return it.Valid() && it.Item().Version() == ver
+	for it.Rewind(); it.Valid(); it.Next() {
+		if v := it.Item().Version(); v <= readTs {
+			return v == ver
+		}
+	}
+	return false
 }
 
 type heldIter struct {
@@ -166,6 +171,7 @@ type Interp struct {
 	stale map[string]bool
 	// hooks for derived checks
 	OnReopen func(in *Interp) error
+	AfterOp  func(in *Interp) error
 	Lenient  bool // AllVersions results compared as mustRetain ⊆ seen ⊆ written (always true after compactions)
 }
 
@@ -215,6 +221,12 @@ func (in *Interp) allKeys() [][]byte {
 	sort.Slice(out, func(i, j int) bool { return bytes.Compare(out[i], out[j]) < 0 })
 	return out
 }
+
+// Dir returns the scratch directory of the run.
+func (in *Interp) Dir() string { return in.dir }
+
+// Errf formats an oracle failure with the current step.
+func (in *Interp) Errf(format string, a ...any) error { return in.errf(format, a...) }
 
 func (in *Interp) errf(format string, a ...any) error {
 	return fmt.Errorf("step %d (%s): %s", in.step, in.opDesc(), fmt.Sprintf(format, a...))
@@ -390,7 +402,7 @@ func (in *Interp) doGet(ts *txnState, key []byte, hold bool) error {
 	if ts.rw && !fromPending {
 		ts.reads[string(key)] = true
 	}
-	if err == nil && (want == nil || want.Version != item.Version()) && in.knownStale(key, item.Version()) {
+	if err == nil && (want == nil || want.Version != item.Version()) && in.knownStale(key, item.Version(), ts.readTs) {
 		return errKnown
 	}
 	if want == nil {
@@ -520,7 +532,7 @@ func (in *Interp) compareNext(ts *txnState, h *heldIter, limit int) error {
 				return in.errf("%s: yielded %x@%d which is not among the written versions in iterator order (expected sequence %s)", h.desc, item.Key(), item.Version(), descItems(h.want))
 			}
 		} else {
-			if (h.pos >= len(h.want) || !bytes.Equal(h.want[h.pos].Key, item.Key()) || h.want[h.pos].Version != item.Version()) && in.knownStale(item.Key(), item.Version()) {
+			if (h.pos >= len(h.want) || !bytes.Equal(h.want[h.pos].Key, item.Key()) || h.want[h.pos].Version != item.Version()) && in.knownStale(item.Key(), item.Version(), ts.readTs) {
 				return errKnown
 			}
 			if h.pos >= len(h.want) {
@@ -1278,6 +1290,11 @@ func (in *Interp) Exec() error {
 		in.step = i
 		if err := in.execOp(op); err != nil {
 			return in.filterKnown(err)
+		}
+		if in.AfterOp != nil {
+			if err := in.AfterOp(in); err != nil {
+				return err
+			}
 		}
 	}
 	in.step = len(in.P.Ops)
